@@ -93,7 +93,7 @@ Definition dec_regular (v : variant) (st : dstate) (buf : list byte) (frags : li
   | None => (DErr BadOperation, st, buf)
   | Some (done, mlen, st) =>
     (* align offset for target data *)
-    match (if mlen =? 0 then
+    match (if (mlen =? 0) && (dcode st =? 0) then
              if peek then None else
              let '(off, rest) := locate (if peek then firstn 1 frags else frags) dl in
              let post := align_post off rest proc in
